@@ -190,8 +190,25 @@ func objectBody(t *spec.Type) {
 		dsl.Extend(expr.Root.UserType(t.Extend))
 		req = append(req, t.RequiredRepeat...)
 	}
+	if t.Reference != "" {
+		dsl.Reference(expr.Root.UserType(t.Reference))
+	}
 	for _, f := range t.Fields {
 		if f.Inherited {
+			continue
+		}
+		if f.FromRef {
+			// by name only: type, default and validations come from the referenced type; what is written here
+			// replaces single validation keywords
+			if f.Override != nil {
+				ov := &spec.Attr{Type: f.Type, Val: f.Override}
+				dsl.Attribute(f.Name, func() { validations(ov) })
+			} else {
+				dsl.Attribute(f.Name)
+			}
+			if f.Required {
+				req = append(req, f.Name)
+			}
 			continue
 		}
 		attribute(f)
